@@ -157,6 +157,37 @@ def run(chk):
                 else:
                     chk.bad('C11-R4', where, inst, 'reduction loop compares `%s`: equal-precedence operators would not group to the left' % T.show(n), PARSE, n['l'])
     chk.floor('precedence comparator sites', sites, 2)
+    # ---- R4b: the reduction loop may stop on the stack length only when no `expr op expr` triple is left (len < 3)
+    chk.rule('C11-R4b', 'inside a reduction loop (`while let Some(Op(prev)) = stack.get(stack.len() - 2)`) an exit on the stack length fires only when fewer than three '
+                        'elements remain (`stack.len() <= c` needs c < 3): stopping earlier leaves a reducible `expr op expr` triple and groups it to the right; '
+                        'the two loops (try_reduce_chunk / try_reduce_expr) use the same bound')
+    bounds = {}
+    for f in fx.fns(PARSE):
+        for n in T.walk(f['body']):
+            if n.get('k') == 'Loop' and n.get('src') == 'While':
+                conds = [c for c in T.walk(n['b']) if c.get('k') == 'LetCond' and 'stack.get(' in T.show(c['init']).replace(' ', '') and 'len()-2' in T.show(c['init']).replace(' ', '')]
+                if not conds:
+                    continue
+                if not any(is_prec_call(x) for x in T.walk(n['b'])):
+                    continue
+                where = T.norm(f['path'])
+                for c, ctx in T.walk_ctx(n['b']):
+                    if c.get('k') == 'If' and any(b.get('k') == 'Break' for b in T.walk(c['t'])):
+                        cc = T.peel(c['c'])
+                        if cc.get('k') == 'Binary' and cc['op'] in ('<=', '<', '==') and T.show(T.peel(cc['x'])) == 'stack.len()' and T.lit_int(cc['y']) is not None:
+                            lim = T.lit_int(cc['y']) + (1 if cc['op'] in ('<=', '==') else 0)     # exits when len < lim
+                            bounds.setdefault(where, []).append((lim, cc, c['l']))
+    chk.floor('reduction loops with a length exit', len(bounds), 2)
+    for where, bs in sorted(bounds.items()):
+        for (lim, cc, line) in bs:
+            if lim <= 3:
+                chk.ok('C11-R4b', (where, T.show(cc)), sample='%s: `if %s { break }` stops only when no triple is left' % (where, T.show(cc)))
+            else:
+                chk.bad('C11-R4b', where, 'length-exit:%s' % T.show(cc), '%s leaves its reduction loop on `%s` although an `expr op expr` triple is still on the stack: '
+                        'e.g. `a - b * c - d` groups as `a - ((b*c) - d)`' % (where, T.show(cc)), PARSE, line)
+    lims = {tuple(sorted(l for l, _, _ in bs)) for bs in bounds.values()}
+    if len(lims) > 1:
+        chk.bad('C11-R4b', 'erg_parser::parse', 'sibling-bounds', 'the two reduction loops use different length bounds %s' % sorted(lims), PARSE, None)
 
     # ---- R5
     lexfile = fx.file(LEX)
